@@ -246,8 +246,9 @@ def _install_sym():
             return INF
         T = S.Sym.lift(CTX['T'])
         if CTX.get('inline'):
-            # inline refinement: all parameters are rational constants and so is the step, (k-1) dt < T < k dt
-            return T * Fr(2, 2 * CTX['steps'] - 1)
+            # inline refinement: one implicit step per epoch (growth functions are then evaluated at t = T only, where
+            # they are rational: a**(T/T) = a, exp(log(a) T/T) = a), everything stays exact rational arithmetic
+            return INF
         key = ('c', T.c) if T.c is not None else ('t', T.t.get_id())
         if key not in CTX['dts']:
             d = S.R('DT%d' % len(CTX['dts']))
@@ -284,6 +285,10 @@ def _install_sym():
     S.Sym._div = staticmethod(div)
 
     def exp(s):
+        if CTX.get('inline') and s.c is None and z3.is_app(s.t) and s.t.decl().name() == 'LOG':
+            arg = S.Sym(s.t.arg(0))
+            CTX['env'].holds('exp(log(a)) simplified to a: a > 0', arg > 0)
+            return arg
         r = oexp(s)
         if r.c is None:
             _axiom(r.t > 0)
@@ -447,7 +452,7 @@ def wellformed_unit(name, L, steps):
     u = H.Unit('wellformed-%s-L%d-steps%d' % (name, L, steps), body,
                params=dict(model=name, module=f.__module__, L=L, steps=steps, params=list(f.__param_names__)),
                setup=_setup_inbreeding if name == 'three_epoch_inbreeding' else None,
-               min_obligations=6 if f.__param_names__ else 5, expect_paths=2 ** nT, timeout_s=600 if steps == 1 else 1500, maxpaths=600,
+               min_obligations=6 if f.__param_names__ else 5, expect_paths=2 ** nT, timeout_s=600 if steps == 1 else 900, maxpaths=600,
                query_timeout_ms=60000)
     return u
 
@@ -763,7 +768,7 @@ def nest_unit(idx, L, steps):
         _same_spectrum(env, fa, fb, 'fs')
     return H.Unit('nest-%s(%s)=%s(%s)-L%d-steps%d' % (A, ','.join(exA.split()), B, ','.join(exB.split()), L, steps), body,
                   params=dict(A=A, args_A=exA, B=B, args_B=exB, L=L, steps=steps), min_obligations=4,
-                  timeout_s=600 if steps == 1 else 1500, maxpaths=600, query_timeout_ms=60000)
+                  timeout_s=600 if steps == 1 else 900, maxpaths=600, query_timeout_ms=60000)
 
 
 def _same_spectrum(env, fa, fb, label):
@@ -779,8 +784,9 @@ def _same_spectrum(env, fa, fb, label):
 
 
 def _refine_inline(env, fA, exA, fB, exB, names, ns, L):
-    """Both models with the real Thomas code interpreted inline, all parameters rational constants: the spectra are
-    exact rationals (or terms over EXP/LOG/POW of constants) and are compared entry by entry."""
+    """Both models with the real Thomas code interpreted inline, all parameters rational constants, one implicit step
+    per epoch: the spectra are exact rationals (selection models: linear forms over a few EXP(constant) atoms) and are
+    compared entry by entry."""
     if CTX['si_inline'] is None:
         CTX['si_inline'] = K.SymIntegration(contract=False)
     sj = CTX['si_inline']
